@@ -24,6 +24,13 @@ for _n in ("tcp", "tcpA", "tcpB"):
 MC_DEPTH["MC_tcp"] = (6, 7)
 GEN_DEPTH["GEN_tcpA"] = (6, 7)
 GEN_DEPTH["GEN_tcpB"] = (5, 6)
+for _n in ("clienttxn", "clienttxnLive", "clienttxnA", "clienttxnB", "clienttxnLA", "clienttxnLB", "clienttxnLC", "clienttxnLD", "clienttxnLE"):
+    MODULE_OF["MC_" + _n] = MODULE_OF["GEN_" + _n] = "ClientTxn.tla"
+    MC_DEPTH["MC_" + _n] = None
+    GEN_DEPTH["GEN_" + _n] = None
+MC_DEPTH["MC_clienttxn"] = (9, 11)
+GEN_DEPTH["GEN_clienttxnA"] = (7, 8)
+GEN_DEPTH["GEN_clienttxnB"] = (6, 7)
 for _n in ("framer", "bindreply", "codec"):
     MODULE_OF["MC_" + _n] = MODULE_OF["GEN_" + _n] = "Codec.tla" if _n == "codec" else "Framer.tla"
     MC_DEPTH["MC_" + _n] = None
@@ -36,7 +43,7 @@ MC_DEPTH.update({"MC_auth": (5, 7), "MC_noauth": (3, 4), "MC_nonce": None})
 GEN_DEPTH.update({"GEN_auth": (4, 5), "GEN_noauth": (2, 3), "GEN_nonce": None})
 
 
-NO_SIM = {"GEN_bindreply", "GEN_codec", "GEN_nonce", "GEN_noauth", "GEN_mtu", "GEN_mtu1200", "GEN_ltcred", "GEN_relaygenOne", "GEN_relaygenTop"}
+NO_SIM = {"GEN_bindreply", "GEN_clienttxnLA", "GEN_clienttxnLB", "GEN_clienttxnLC", "GEN_clienttxnLD", "GEN_clienttxnLE", "GEN_clienttxnB", "GEN_codec", "GEN_nonce", "GEN_noauth", "GEN_mtu", "GEN_mtu1200", "GEN_ltcred", "GEN_relaygenOne", "GEN_relaygenTop"}
 
 
 def depth(table, name, t):
@@ -122,6 +129,14 @@ PROPS = {
                              "all 65536 channel numbers are swept against the spec's ValidChan set; payload lengths are the classes 0..8, 1499, 1500, 65532, 65533, 65535; "
                              "raw attribute values of every size 0..64 in six fill classes for each of the eleven attributes",
                              "XOR address arithmetic itself lives in pion/stun and is only exercised, not specified"]),
+    "C12": dict(title="client transactions: match by ID, retransmit on schedule, terminate", level="model_checking",
+                run=core_run(["MC_clienttxn", "MC_clienttxnLive"],
+                             ["GEN_clienttxnA", "GEN_clienttxnB", "GEN_clienttxnLA", "GEN_clienttxnLB", "GEN_clienttxnLC", "GEN_clienttxnLD", "GEN_clienttxnLE"]),
+                assumptions=["the real turn.Client runs over a scripted in-memory PacketConn in virtual time; transmissions are counted at the server endpoint at the instants the spec names "
+                             "(1 ms before, at, and between retransmission timers), returns of PerformTransaction are classified (response / all-retransmissions-failed / closed / write error)",
+                             "two concurrent transactions; RTO 100, 200, 500, 1000, 1600 ms; write failures on the 1st, 2nd and 7th transmission; responses, duplicates, late and foreign-id responses at every modelled instant; Close at any point",
+                             "liveness C12_Terminates is checked by TLC under weak fairness of time on the timer-to-timer abstraction (MC_clienttxnLive); on the code, termination is observed for every replayed path (virtual time runs until the spec says the caller has returned)",
+                             "interleavings inside one instant (a response racing a timer callback while a slow socket write holds the table lock) are not enumerated by this request-atomic model"]),
     "C16": dict(title="TCP relay: bind once, by the owner, within 30 s, bytes intact", level="model_checking",
                 run=core_run(["MC_tcp"], ["GEN_tcpA", "GEN_tcpB"]),
                 assumptions=["control, relayed, peer and data connections are in-memory buffered streams (harness/memstream.go); connection ids are aliased by order of appearance",
